@@ -122,7 +122,7 @@ Print Assumptions C18_reopen.
    file, no other file changes, and the ingest file is absent or a prefix of
    the new content with mode 0600 *)
 Theorem C18_atomic :
-  forall (dir p t : path) (chunks : list str),
+  forall (dir : list path) (p t : path) (chunks : list str),
     t <> p ->
     forall s pre,
     fget t s = None ->
@@ -137,7 +137,7 @@ Print Assumptions C18_atomic.
 
 (* the completed save: new content, owner-only mode, no ingest file left *)
 Theorem C18_save_complete :
-  forall (dir p t : path) (chunks : list str),
+  forall (dir : list path) (p t : path) (chunks : list str),
     t <> p ->
     forall s,
     fget t s = None ->
@@ -157,7 +157,7 @@ Theorem C18_atomic_op :
   forall (enc : str -> str) (dec : str -> option str)
          (render : fdoc -> str) (parse : str -> option fdoc) (chunking : str -> list str),
     (forall d, parse (render d) = Some d) -> (forall x, concat (chunking x) = x) ->
-    forall (dir p t : path) st o s pre,
+    forall (dir : list path) (p t : path) st o s pre,
       t <> p -> fget t s = None ->
       disk_view parse p s = view_of (st_file st) ->
       crash_cut (op_steps enc dec render chunking dir p t st o) pre ->
@@ -198,7 +198,7 @@ Proof. vm_compute. split; reflexivity. Qed.
 
 Example C18_example_atomic :
   let s := {| fs_files := [(b "cfg", {| f_data := b "old"; f_mode := 420 |})]; fs_dirs := [] |} in
-  let steps := save_steps (b "d") (b "cfg") (b "tmp") [b "ne"; b "w"] in
+  let steps := save_steps [b "d"] (b "cfg") (b "tmp") [b "ne"; b "w"] in
   crash_cut steps (cut_at steps 4 1) /\
   fget (b "cfg") (exec_all s (cut_at steps 4 1)) = Some {| f_data := b "old"; f_mode := 420 |} /\
   fget (b "tmp") (exec_all s (cut_at steps 4 1)) = Some {| f_data := b "new"; f_mode := mode_file |} /\
@@ -239,6 +239,129 @@ Proof.
     + intros [|[|i]]; split; reflexivity.
     + vm_compute. reflexivity.
 Qed.
+
+(* crash points x schedules: at EVERY reachable state of a concurrent execution
+   (in particular whenever the process is killed) the config document on disk is
+   the one a sequential run of a prefix of the linearisation leaves -- never a
+   mixture of two callers' updates; C18_atomic_op refines the single save step
+   [c_wfile] into system calls *)
+Theorem C18_file_always_sequential :
+  forall (enc : str -> str) (dec : str -> option str) g0 g lin,
+    initial g0 -> creach enc dec g0 g lin ->
+    exists n, (n <= length lin)%nat /\
+              st_file (g_store g) = st_file (run enc dec (g_store g0) (map lab_op (firstn n lin))).
+Proof. exact file_always_sequential. Qed.
+Print Assumptions C18_file_always_sequential.
+
+(* Get is pure: a Get -- answered by an exact key, by the legacy-key scan or not
+   at all -- leaves memory (auths cache, content, credsStore) and file exactly
+   as they were; so does any sequence of Gets *)
+Theorem C18_get_pure :
+  forall (enc : str -> str) (dec : str -> option str) st,
+    (forall a, fst (step enc dec st (Get a)) = st) /\
+    (forall h, Forall is_get h -> run enc dec st h = st).
+Proof. intros enc dec st. split; [exact (get_pure enc dec st)|intro h; exact (gets_pure enc dec h st)]. Qed.
+Print Assumptions C18_get_pure.
+
+(* the saved file is owner-only whatever file (and whatever permission bits) was
+   at the config path before: 0600 after the save, and at every crash cut the
+   path holds the untouched old file or a file of mode 0600 *)
+Theorem C18_mode_owner_only :
+  forall (dir : list path) (p t : path) (chunks : list str),
+    t <> p -> forall s,
+    fget t s = None ->
+    (forall f, fget p (exec_all s (save_steps dir p t chunks)) = Some f -> f_mode f = mode_file) /\
+    (exists f, fget p (exec_all s (save_steps dir p t chunks)) = Some f) /\
+    (forall pre f, crash_cut (save_steps dir p t chunks) pre ->
+                   fget p (exec_all s pre) = Some f -> fget p (exec_all s pre) <> fget p s -> f_mode f = mode_file).
+Proof. exact mode_owner_only. Qed.
+Print Assumptions C18_mode_owner_only.
+
+Example C18_example_mode :
+  let s := {| fs_files := [(b "cfg", {| f_data := b "old"; f_mode := 438 |})]; fs_dirs := [] |} in
+  fget (b "cfg") (exec_all s (save_steps [b "d"] (b "cfg") (b "tmp") [b "new"]))
+  = Some {| f_data := b "new"; f_mode := 384 |}.
+Proof. vm_compute. reflexivity. Qed.
+
+(* os.MkdirAll(configDir, 0700) over any chain of ancestors: after the save every
+   level exists; a level that was missing has mode 0700, an existing level keeps
+   its mode; no other directory changes *)
+Theorem C18_mkdir_all :
+  forall (chain : list path) (p t : path) (chunks : list str) s d,
+    dget d (exec_all s (save_steps chain p t chunks)) =
+    if existsb (str_eqb d) chain
+    then Some (match dget d s with Some m => m | None => mode_dir end)
+    else dget d s.
+Proof. exact save_dirs. Qed.
+Print Assumptions C18_mkdir_all.
+
+(* a config path that is a symbolic link to q (the name p holds no file; reading
+   p reads q until the name is replaced): at every crash cut a reader of the
+   path finds the old target or the complete new file with mode 0600; after the
+   save the new file; the link target itself is never written (it keeps the
+   old document) *)
+Theorem C18_symlink_path :
+  forall (chain : list path) (p t : path) (chunks : list str),
+    t <> p ->
+    forall q s pre,
+    q <> p -> q <> t -> fget t s = None ->
+    crash_cut (save_steps chain p t chunks) pre ->
+    (read_via_link p q s pre = fget q s \/
+     read_via_link p q s pre = Some {| f_data := concat chunks; f_mode := mode_file |}) /\
+    fget q (exec_all s pre) = fget q s /\
+    (pre = save_steps chain p t chunks ->
+     read_via_link p q s pre = Some {| f_data := concat chunks; f_mode := mode_file |}).
+Proof. exact symlink_path. Qed.
+Print Assumptions C18_symlink_path.
+
+(* FileStore.DisablePut: every Put (also one with a malformed credential) is
+   refused with ErrPlaintextPutDisabled and changes nothing; Get and Delete are
+   unaffected; over any history no auths entry appears in the file that the
+   opened document did not already hold, unchanged; with the switch off the
+   store is the one of the theorems above *)
+Theorem C18_disable_put :
+  forall (enc : str -> str) (dec : str -> option str),
+    (forall st a c, fs_step enc dec true st (Put a c) = (st, RErrPutDisabled)) /\
+    (forall st a, fs_step enc dec true st (Get a) = step enc dec st (Get a)) /\
+    (forall st a, fs_step enc dec true st (Delete a) = step enc dec st (Delete a)) /\
+    (forall f st0 h a e, open_store f = Some st0 ->
+       file_entry a (st_file (fs_run enc dec true st0 h)) = Some e -> file_entry a f = Some e) /\
+    (forall st h, fs_run enc dec false st h = run enc dec st h).
+Proof.
+  intros enc dec. split; [exact (put_disabled enc dec)|]. split; [reflexivity|]. split; [reflexivity|].
+  split; [exact (disable_put_no_new_entry enc dec)|].
+  intros st h. exact (fs_run_enabled enc dec h st).
+Qed.
+Print Assumptions C18_disable_put.
+
+Example C18_example_mkdir_all :
+  let s := {| fs_files := []; fs_dirs := [(b "/home", 493)] |} in
+  let s' := exec_all s (save_steps [b "/home"; b "/home/.docker"; b "/home/.docker/sub"] (b "cfg") (b "tmp") [b "x"]) in
+  (dget (b "/home") s', dget (b "/home/.docker") s', dget (b "/home/.docker/sub") s') = (Some 493, Some 448, Some 448).
+Proof. vm_compute. reflexivity. Qed.
+
+(* on plain host addresses (ToHostname a = a: no scheme, no path) the FileStore
+   answers every history exactly like the in-memory Store of memory_store.go (a
+   map; [mem_step] with the colon rule): starting from a store that corresponds to
+   a map -- in particular from a missing config file and the empty map *)
+Theorem C18_refines_memory_store :
+  forall (enc : str -> str) (dec : str -> option str) (ok : str -> Prop),
+    (forall s, ok s -> dec (enc s) = Some s) -> (forall s, enc s = [] -> s = []) ->
+    forall h st m,
+      sim enc ok st m -> Forall (good_op ok) h ->
+      map fst (run_obs enc dec st h) = mem_results m h.
+Proof. exact refines_memory_store. Qed.
+Print Assumptions C18_refines_memory_store.
+
+Theorem C18_refines_memory_store_fresh :
+  forall h, Forall (good_op bytes) h ->
+    map fst (run_obs b64_encode b64_decode {| st_mem := empty_mem; st_file := None |} h) = mem_results [] h.
+Proof.
+  intros h F.
+  exact (refines_memory_store b64_encode b64_decode bytes b64_roundtrip b64_encode_nonempty h _ []
+           (sim_empty b64_encode bytes None) F).
+Qed.
+Print Assumptions C18_refines_memory_store_fresh.
 
 (* the defect this check found (fixed on the repository branch): before the fix
    a config file holding the JSON value null made the first save panic *)
